@@ -53,6 +53,7 @@ Exact(cfg, e) ==
 \* inconsistency of the spec (tool error), never a statement about rust-bio.
 MachineAgrees ==
     (idx > 0 /\ Rec[run].ev[idx].c.op = "occ"
+       /\ Len(Rec[run].ev[idx].c.a.bwt) <= 450
        /\ (Rec[run].ev[idx].c.a.k >= 63 \/ Len(Rec[run].ev[idx].c.a.bwt) <= 70)) =>     \* (cost: look-ahead rates, small tables)
         LET a    == Rec[run].ev[idx].c.a
             syms == Range(a.syms)
